@@ -1,4 +1,5 @@
 import Skv.Lemmas.Restore
+import Skv.Lemmas.RestoreIdx
 /-!
 # C14 — checkpoint and restore reproduce the checkpointed state
 
@@ -14,7 +15,13 @@ for every checkpoint and history (`C14_cache_coherent`), and under coherence eve
 the block of the file that is there now (`C14_read_after_restore`); the late clean-up never removes
 a segment the current manifest needs (`C14_cleanup_keeps_needed`).  Kernel-checked witnesses show
 what the code did before the three repairs (stale block served under a reused id; live segment
-deleted).  The value-log reload and the sequence / oracle reset are validated by the stream only.
+deleted).  With versioning and the B+tree version index (`VStore`: value log, index entries pointing into
+it, sequence counter): after any history of versioned writes, checkpoints and restores the history of
+every key is the one of the specification log, and the checkpoint opened standalone lists the
+checkpointed history (`C14_history_after_restore`, `C14_checkpoint_dir_history`); before the repair the
+open index of the discarded timeline stayed and the checkpoint had none
+(`fixed_restore_kept_the_discarded_index`).  The value-log reload and the sequence / oracle reset are
+validated by the stream only.
 -/
 
 inductive RAct
@@ -71,3 +78,46 @@ theorem C14_witness_stale_block :
 
 /-- before the repair: the clean-up scheduled before the restore deletes the restored store's live segment -/
 theorem C14_witness_late_cleanup : (3 : Nat) ∉ cleanupSegments [3] 5 := late_cleanup_deletes_live_segment
+
+
+/-! ## versioned stores with the version index -/
+
+/-- **history after restore.**  After any history of versioned writes, checkpoints and restores, the
+history of every key, read through the index and the value log, is the history of the specification
+(a log of versions; restore puts the remembered log back): every version resolves, none of the discarded
+timeline is listed. -/
+theorem C14_history_after_restore (acts : List VAct) (k : Nat) :
+    (acts.foldl (VStore.act true) {}).history k = specHist (acts.foldl ASpec.act {}).log k := by
+  have h := rel_run acts {} {} rel_init
+  exact shows_history _ _ _ _ h.1 k
+
+/-- **the checkpoint directory opened as a database** lists, for every key, the history remembered by the
+specification at the checkpoint -/
+theorem C14_checkpoint_dir_history (acts : List VAct) (k : Nat) (ck : VCk)
+    (hck : (acts.foldl (VStore.act true) {}).saved = some ck) :
+    ∃ l, (acts.foldl ASpec.act {}).saved = some l ∧ ck.history k = specHist l k := by
+  have h := (rel_run acts {} {} rel_init).2
+  rw [hck] at h
+  cases has : (acts.foldl ASpec.act {}).saved with
+  | none => simp [has] at h
+  | some l =>
+    simp only [has] at h
+    obtain ⟨ix, hix, hsh⟩ := h
+    refine ⟨l, rfl, ?_⟩
+    unfold VCk.history
+    rw [hix]
+    exact shows_history _ _ _ _ hsh k
+
+/-- non-vacuity: a history with a write after the checkpoint and one after the restore -/
+example : (([.put 1 10, .checkpoint, .put 1 20, .put 2 30, .restore, .put 3 40] : List VAct).foldl (VStore.act true) {}).history 1
+    = [some 10] := by decide
+
+/-- the repaired defect: the checkpoint had no index file and the restore kept the open index of the
+discarded timeline; after the restore and one more commit the pointer of the discarded version of key 1
+resolves into the value written for key 3 (in the code: the record's header does not match and the read
+fails), and the checkpoint opened standalone lists nothing -/
+theorem fixed_restore_kept_the_discarded_index :
+    let acts : List VAct := [.put 1 10, .checkpoint, .put 1 20, .put 2 30, .restore, .put 3 40]
+    let s := acts.foldl (VStore.act false) {}
+    s.history 1 = [some 40, some 10] ∧ specHist (acts.foldl ASpec.act {}).log 1 = [some 10] ∧
+    (s.saved.map (fun c => c.history 1)) = some [] := by decide
